@@ -655,6 +655,21 @@ fn reload_schema(is_json: bool, doc: &str) -> J {
 fn op_conv_schema(world: &J, op: &J) -> R<J> {
     let (j, dir) = (us(&op[1], "j")?, st(&op[2], "dir")?);
     let src = &world["schemaSources"][j - 1];
+    if dir == "toJsonResolved" {
+        // the document text itself is handed over (the entry point reads the Cedar schema syntax only)
+        let (_, text) = schema_doc(src)?;
+        let ans = ffi::schema_to_json_with_resolved_types(&text).to_j();
+        let (f, reloaded) = if ans["type"] == "success" { (json!(["ok", canon(&ans["json"])]), reload_schema(true, &ans["json"].to_string())) } else { (fail(), fail()) };
+        let (a, api_reloaded) = match cedar_policy::schema_str_to_json_with_resolved_types(&text) {
+            Ok((v, _)) => (json!(["ok", canon(&v)]), reload_schema(true, &v.to_string())),
+            Err(_) => (fail(), fail()),
+        };
+        let source = match api_schema(src)? {
+            Ok(s) => json!(["ok", canon(&project_schema(&s))]),
+            Err(_) => fail(),
+        };
+        return Ok(json!({"ffi": f, "api": a, "reloaded": reloaded, "apiReloaded": api_reloaded, "source": source}));
+    }
     let to_json = dir == "toJson";
     let typed: ffi::Schema = serde_json::from_value(ffi_schema(src)?).map_err(|e| e.to_string())?;
     let (f, reloaded) = if to_json {
@@ -1122,17 +1137,25 @@ fn op_cli_translate_schema(world: &J, op: &J, tag: &str) -> R<J> {
     let f = put(&dir, "schema.in", &text)?;
     let out = cli_run(&["translate-schema".to_string(), "--direction".to_string(), dir_s.to_string(), "--schema".to_string(), f])?;
     let _ = std::fs::remove_dir_all(&dir);
-    let to_json = dir_s == "cedar-to-json";
+    let resolved = dir_s == "cedar-to-json-with-resolved-types";
+    let to_json = dir_s == "cedar-to-json" || resolved;
     let printed = out.stdout.strip_suffix('\n').unwrap_or(&out.stdout).to_string();
     // the API on the same text, read in the syntax the direction names
-    let frag = if to_json { SchemaFragment::from_cedarschema_str(&text).map(|x| x.0).map_err(|e| e.to_string()) } else { SchemaFragment::from_json_str(&text).map_err(|e| e.to_string()) };
-    let a = match frag {
-        Err(_) => fail(),
-        Ok(fr) => {
-            if to_json {
-                fr.to_json_string().map(|s| json!(["ok", s])).unwrap_or_else(|_| fail())
-            } else {
-                fr.to_cedarschema().map(|s| json!(["ok", s])).unwrap_or_else(|_| fail())
+    let a = if resolved {
+        match cedar_policy::schema_str_to_json_with_resolved_types(&text) {
+            Ok((v, _)) => serde_json::to_string_pretty(&v).map(|s| json!(["ok", s])).unwrap_or_else(|_| fail()),
+            Err(_) => fail(),
+        }
+    } else {
+        let frag = if to_json { SchemaFragment::from_cedarschema_str(&text).map(|x| x.0).map_err(|e| e.to_string()) } else { SchemaFragment::from_json_str(&text).map_err(|e| e.to_string()) };
+        match frag {
+            Err(_) => fail(),
+            Ok(fr) => {
+                if to_json {
+                    fr.to_json_string().map(|s| json!(["ok", s])).unwrap_or_else(|_| fail())
+                } else {
+                    fr.to_cedarschema().map(|s| json!(["ok", s])).unwrap_or_else(|_| fail())
+                }
             }
         }
     };
